@@ -419,7 +419,7 @@ fn c08_after_connack_once(bytes: &[u8], frag: bool, rx_size: usize) -> CaseOut {
         let exp = expect_after_connack(bytes, rx_size);
         let mut viol: Vec<(String, String)> = Vec::new();
         let mut flag = |rule: &str, ctx: String, detail: String| {
-            viol.push((format!("C08:{}:{}", rule, ctx), format!("{} [input {}]", detail, mr::hex(bytes))))
+            viol.push((format!("C08:{}:{}", rule, ctx), format!("{} [input {}]", detail, if bytes.len() > 512 { mr::hex_short(bytes) } else { mr::hex(bytes) })))
         };
         let deliveries: Vec<InMsg> = evs
             .iter()
@@ -598,7 +598,7 @@ fn c08_as_connack_once(bytes: &[u8], rx_size: usize, client_id: &str) -> CaseOut
         let r = bench.run(session.connect(io), id);
         let mut viol: Vec<(String, String)> = Vec::new();
         let mut flag = |rule: &str, ctx: String, detail: String| {
-            viol.push((format!("C08:{}:{}", rule, ctx), format!("{} [input {}]", detail, mr::hex(bytes))))
+            viol.push((format!("C08:{}:{}", rule, ctx), format!("{} [input {}]", detail, if bytes.len() > 512 { mr::hex_short(bytes) } else { mr::hex(bytes) })))
         };
         let too_large = matches!(mr::fixed_header(bytes), Ok(fh) if fh.total() > rx_size);
         let class = if too_large {
@@ -981,6 +981,15 @@ pub fn c08_wide_grammar() -> Vec<SPacket> {
     v
 }
 
+/// PUBLISH QoS 0, topic "t", no properties, payload filling the rest of `rem` remaining bytes.
+pub fn huge_publish(rem: usize) -> Vec<u8> {
+    let mut p = vec![0x30];
+    mr::put_varint(&mut p, rem as u32);
+    p.extend_from_slice(&[0x00, 0x01, b't', 0x00]);
+    p.extend(std::iter::repeat(0x5Au8).take(rem - 4));
+    p
+}
+
 pub fn c08_wide_connack_grammar() -> Vec<SPacket> {
     let mut v = Vec::new();
     let pr = |id: u8, val: PVal| Prop { id, val };
@@ -1318,17 +1327,8 @@ pub fn c08(tier: Tier, caps: &Caps) -> Vec<FamilyReport> {
     ));
     // the four-byte band of the remaining length: a receive buffer of just over 2 MiB
     const HUGE_RX: usize = 2_097_152 + 64;
-    let huge: Vec<Vec<u8>> = [2_097_151usize, 2_097_152, 2_097_153, 2_097_200]
-        .iter()
-        .map(|rem| {
-            // PUBLISH QoS 0, topic "t", no properties, payload filling the rest
-            let mut p = vec![0x30];
-            mr::put_varint(&mut p, *rem as u32);
-            p.extend_from_slice(&[0x00, 0x01, b't', 0x00]);
-            p.extend(std::iter::repeat(0x5Au8).take(rem - 4));
-            p
-        })
-        .collect();
+    let huge_rems = [2_097_151usize, 2_097_152, 2_097_153, 2_097_200];
+    let huge: Vec<Vec<u8>> = huge_rems.iter().map(|rem| huge_publish(*rem)).collect();
     out.push(sweep(
         "C08-four-byte-remaining-length-in-a-2-MiB-buffer",
         "C08",
@@ -1336,7 +1336,8 @@ pub fn c08(tier: Tier, caps: &Caps) -> Vec<FamilyReport> {
         caps,
         json!({"cases": "inbound QoS 0 PUBLISH with remaining length 2097151 (largest three-byte form), 2097152, 2097153 and 2097200 (four-byte forms) delivered whole into a receive buffer of 2097216 bytes", "rx": HUGE_RX}),
         &|i| c08_after_connack_rx(&huge[i as usize], false, HUGE_RX),
-        &|i| json!({"phase": "after-connack", "bytes": mr::hex(&huge[i as usize]), "fragmented": false, "rx": HUGE_RX}),
+        // (the case is described by its remaining length: the packet itself is 2 MiB)
+        &|i| json!({"phase": "after-connack-huge", "remaining": huge_rems[i as usize], "rx": HUGE_RX}),
     ));
     // CONNACK boundary values for a client that configured no identifier, 300-byte buffer
     let mut wc: Vec<Vec<u8>> = Vec::new();
@@ -1379,7 +1380,11 @@ pub fn replay_case(v: &Value) -> i32 {
     let case = &v["case"];
     let sig = v["signature"].as_str().unwrap_or("");
     let out = if name.starts_with("C08") {
-        let bytes = unhex(case["bytes"].as_str().unwrap_or(""));
+        let bytes = if case["phase"].as_str() == Some("after-connack-huge") {
+            huge_publish(case["remaining"].as_u64().unwrap_or(4) as usize)
+        } else {
+            unhex(case["bytes"].as_str().unwrap_or(""))
+        };
         match case["phase"].as_str().unwrap_or("") {
             "as-connack" => c08_as_connack_cfg(
                 &bytes,
